@@ -541,6 +541,49 @@ def j_tri_new(ln):
     if P(R, 13) != lo or P(R, 16) != hi: return ('fail', 'triangle-bounds', 'bounds are not the coordinate-wise min/max of the vertices')
     return OK
 
+class RV:
+    """a real value x (exact, of the expression evaluated on the float inputs) with a bound e on |float result - x|"""
+    __slots__ = ('x', 'e')
+    def __init__(self, x, e=Fraction(0)): self.x = Fraction(x); self.e = Fraction(e)
+
+def _rv_u(): return Fraction(C.FMT.eps) / 2
+def _rv_eta(): return Fraction(1, 2**149) if C.FMT.name == 'f32' else Fraction(1, 2**1074)
+
+def rv_add(a, b, sign=1):
+    x = a.x + sign * b.x; ein = a.e + b.e
+    return RV(x, ein + _rv_u() * (abs(x) + ein))
+
+def rv_mul(a, b):
+    x = a.x * b.x; ein = abs(a.x) * b.e + abs(b.x) * a.e + a.e * b.e
+    return RV(x, ein + _rv_u() * (abs(x) + ein) + _rv_eta())
+
+def rv_div(a, b):
+    if abs(b.x) <= b.e: return None
+    x = a.x / b.x
+    ein = (a.e * abs(b.x) + abs(a.x) * b.e) / (abs(b.x) * (abs(b.x) - b.e))
+    return RV(x, ein + _rv_u() * (abs(x) + ein) + _rv_eta())
+
+def rv_dot(u, v):
+    return rv_add(rv_add(rv_mul(u[0], v[0]), rv_mul(u[1], v[1])), rv_mul(u[2], v[2]))
+
+def tp_running(a, b, c, p):
+    """(alpha, beta, w) of Triangle3D::test_point as RVs: the exact values on the given floats and rigorous bounds on what
+    the float evaluation (in the crate's order of operations) can return; None when the determinant cannot be bounded away from 0"""
+    A = [RV(t) for t in a]; B = [RV(t) for t in b]; Cc = [RV(t) for t in c]; Pp = [RV(t) for t in p]
+    e1 = [rv_add(B[k], A[k], -1) for k in range(3)]
+    e2 = [rv_add(Cc[k], A[k], -1) for k in range(3)]
+    pa = [rv_add(Pp[k], A[k], -1) for k in range(3)]
+    e2e2 = rv_dot(e2, e2); e1e2 = rv_dot(e2, e1); e1e1 = rv_dot(e1, e1)
+    left1 = rv_dot(e1, pa); left2 = rv_dot(e2, pa)
+    det = rv_add(rv_mul(e1e1, e2e2), rv_mul(e1e2, e1e2), -1)
+    alpha = rv_div(rv_add(rv_mul(e2e2, left1), rv_mul(e1e2, left2), -1), det)
+    ne = RV(-e1e2.x, e1e2.e)
+    beta = rv_div(rv_add(rv_mul(ne, left1), rv_mul(e1e1, left2)), det)
+    if alpha is None or beta is None: return None
+    w = rv_add(rv_add(RV(1), alpha, -1), beta, -1)
+    return (alpha.x, alpha.e), (beta.x, beta.e), (w.x, w.e)
+
+
 TP_NAMES = ['VertexA', 'VertexB', 'VertexC', 'EdgeAB', 'EdgeBC', 'EdgeAC', 'Inside', 'Outside']
 
 def j_tri_tp(ln):
@@ -561,21 +604,20 @@ def j_tri_tp(ln):
         e11, e22, e12 = vnorm2(T.e1), vnorm2(T.e2), vdot(T.e1, T.e2)
         l1, l2 = vdot(T.e1, pa), vdot(T.e2, pa)
         al = (e22 * l1 - e12 * l2) / T.n2; be = (e11 * l2 - e12 * l1) / T.n2; w = 1 - al - be
-        # worst-case rounding error of the crate's normal-equation solve (cancellation in det and in the numerators)
-        cA = T.lab * T.lca / T.nl; lpa = flen(pa); lmin = min(T.lab, T.lca)
-        base = 8 * eps * cA * T.M / lmin
-        n_al = eps * cA * cA * (8 * lpa / T.lab + 4 * abs(float(al)) + 4) + base
-        n_be = eps * cA * cA * (8 * lpa / T.lca + 4 * abs(float(be)) + 4) + base
-        tiny = float(TINY()); f = float(BC)
-        # the documented tolerance (100 eps on the barycentric coordinates) is only a few times the rounding noise, so the
-        # band is the raw-comparison factor BC plus that noise
-        def cls(c, noise):
-            c = float(c)
-            if c <= -(tiny * f + noise): return 'neg'
-            if c >= tiny * f + noise: return 'pos'
-            if abs(c) <= tiny / f - noise: return 'zero'
+        # A-posteriori (running) rounding-error bounds of the crate's own evaluation order, each operation rounded to nearest:
+        # rigorous and case by case, so the documented tolerance (100 eps on the barycentric coordinates) can be decided for
+        # well-conditioned triangles (the a-priori worst case is of the size of the tolerance itself)
+        rv = tp_running(T.a, T.b, T.c, p)
+        if rv is None: return BAND
+        (al_r, n_al), (be_r, n_be), (w_r, n_w) = rv
+        assert al_r == al and be_r == be and w_r == w
+        tiny = TINY()
+        def cls(c, e):
+            if c + e < -tiny: return 'neg'
+            if c - e > tiny: return 'pos'
+            if c - e >= -tiny and c + e <= tiny: return 'zero'
             return 'band'
-        ca, cb, cw = cls(al, n_al), cls(be, n_be), cls(w, n_al + n_be)
+        ca, cb, cw = cls(al, n_al), cls(be, n_be), cls(w, n_w)
         if 'neg' in (ca, cb, cw): want = 7
         elif 'band' in (ca, cb, cw): return BAND
         else:
